@@ -102,7 +102,7 @@ impl<Req, Res, E> TimeLimiter<Req, Res, E> {
         ensures
             r matches Poll::Ready(Ok(_)) ==> final(self).inner.ready@,   // #ready_only_when_inner_ready [C20]
             r matches Poll::Ready(Err(e)) ==> e is Inner,   // #readiness_errors_surface_as_inner [C20]
-            final(self).config == old(self).config,   // #frame
+            final(self).config == old(self).config,   // #shared_state_handles_and_configuration_are_left_untouched [C06]
     //@body TimeLimiter::poll_ready@Service
 
     pub fn call(&mut self, req: Req, clk: &mut Clock, Tracked(tr): Tracked<&mut Trace<Req, Res, E>>) -> (result: Result<Res, TimeLimiterError<E>>)
@@ -121,7 +121,7 @@ impl<Req, Res, E> TimeLimiter<Req, Res, E> {
                 Ok(v) => final(tr).last_done == Some(Ok::<Res, E>(v)) && final(tr).slept == 0,
                 Err(TimeLimiterError::Inner(e)) => final(tr).last_done == Some(Err::<Res, E>(e)) && final(tr).slept == 0,
                 Err(TimeLimiterError::Timeout) => final(tr).slept == timeout_spec(old(self).config.timeout_source, req).nanos && final(tr).last_recv is None }),   // #non_cancelling_mode_result_if_it_arrives_else_timeout_after_this_requests_timeout [C06,C20]
-            final(self).config == old(self).config,   // #frame
+            final(self).config == old(self).config,   // #shared_state_handles_and_configuration_are_left_untouched [C06]
     //@body TimeLimiter::call@Service
 }
 fn main() {}
